@@ -306,14 +306,16 @@ func progressLE(a, b InstanceProgress) bool {
 	if a.ID != b.ID {
 		return a.ID < b.ID
 	}
+	// within an instance the round never decreases (entering DECIDE or terminating
+	// keeps the round), and within a round the step never decreases
+	if a.Round != b.Round {
+		return a.Round < b.Round
+	}
 	if a.Phase == TERMINATED_PHASE || b.Phase == TERMINATED_PHASE {
 		return b.Phase == TERMINATED_PHASE || a.Phase != TERMINATED_PHASE
 	}
 	if a.Phase == DECIDE_PHASE || b.Phase == DECIDE_PHASE {
 		return b.Phase == DECIDE_PHASE || a.Phase != DECIDE_PHASE
-	}
-	if a.Round != b.Round {
-		return a.Round < b.Round
 	}
 	return phaseOrder(a.Phase) <= phaseOrder(b.Phase)
 }
